@@ -163,21 +163,8 @@ def check_config(spec, m, N, dev, res, ctx, only_mask=None):
     res.sample({"model": name, "N": N, "deviation": dev, "masks": 2 ** (ny * N) - 1})
 
 
-def unit_root_models():
-    """trend + cycle models under the default diffuse_method="fixed_unknown" (no constant: flat steady state)"""
-    S = linre.LinSpec
-    rw = dict(terms=[(0, -1, 1.0)], const=0.0, shock=True)
-    cyc = dict(terms=[(1, -1, 0.6)], const=0.0, shock=True)
-    cyc2 = dict(terms=[(1, -1, 0.5), (1, -2, 0.2), (0, 0, 0.1), (0, -1, -0.1)], const=0.0, shock=True)
-    return [
-        S(2, [rw, cyc], [dict(terms=[(0, 0, 1.0), (1, 0, 1.0)], const=0.0, shock=True)], False, "ur_trend_cycle_one"),
-        S(2, [rw, cyc2], [dict(terms=[(0, 0, 1.0), (1, 0, 1.0)], const=0.0, shock=True), dict(terms=[(1, 0, 1.0), (1, -1, 0.5)], const=0.0, shock=False)], False, "ur_trend_cycle_two"),
-        S(1, [rw], [dict(terms=[(0, 0, 1.0)], const=0.0, shock=True)], False, "ur_local_level"),
-    ]
-
-
 def all_models(tier):
-    return c03.models(tier) + unit_root_models()
+    return c03.models(tier) + c03.unit_root_models(tier)
 
 
 def shard(item, res, ctx):
